@@ -120,16 +120,44 @@ impl GenerationCache {
         structs: &HashMap<String, StructInfo>,
         config: &GenerateConfig,
     ) -> Result<bool, CacheError> {
-        Self::needs_regeneration_with_events(output_dir, commands, structs, &[], config)
+        Self::check_regeneration(output_dir, commands, structs, &[], config, false)
     }
 
-    /// Check if generation is needed, taking the discovered events into account
+    /// Check if generation is needed, taking the discovered events into account.
+    ///
+    /// Unlike `needs_regeneration` this also answers `true` when one of the files
+    /// the generation would write is missing from the output directory: a
+    /// matching record is no use if the file it stands for has been deleted.
     pub fn needs_regeneration_with_events<P: AsRef<Path>>(
         output_dir: P,
         commands: &[CommandInfo],
         structs: &HashMap<String, StructInfo>,
         events: &[EventInfo],
         config: &GenerateConfig,
+    ) -> Result<bool, CacheError> {
+        Self::check_regeneration(output_dir, commands, structs, events, config, true)
+    }
+
+    /// Names of the files a generation run writes for this input
+    fn expected_output_files(events: &[EventInfo], config: &GenerateConfig) -> Vec<&'static str> {
+        let mut files = vec!["types.ts", "commands.ts", "index.ts"];
+        if !events.is_empty() {
+            files.push("events.ts");
+        }
+        if config.should_visualize_deps() {
+            files.push("dependency-graph.txt");
+            files.push("dependency-graph.dot");
+        }
+        files
+    }
+
+    fn check_regeneration<P: AsRef<Path>>(
+        output_dir: P,
+        commands: &[CommandInfo],
+        structs: &HashMap<String, StructInfo>,
+        events: &[EventInfo],
+        config: &GenerateConfig,
+        require_output_files: bool,
     ) -> Result<bool, CacheError> {
         // Try to load previous cache
         let previous_cache = match Self::load(&output_dir) {
@@ -149,7 +177,21 @@ impl GenerationCache {
         let current_cache = Self::new_with_events(commands, structs, events, config)?;
 
         // Compare combined hashes
-        Ok(previous_cache.combined_hash != current_cache.combined_hash)
+        if previous_cache.combined_hash != current_cache.combined_hash {
+            return Ok(true);
+        }
+
+        // The record matches; it only helps if the files are still there
+        if require_output_files {
+            let missing = Self::expected_output_files(events, config)
+                .iter()
+                .any(|name| !output_dir.as_ref().join(name).is_file());
+            if missing {
+                return Ok(true);
+            }
+        }
+
+        Ok(false)
     }
 
     /// Get the cache file path
